@@ -175,28 +175,28 @@ cfoldBCall(Foam bcall)
 		assert(foamTag(argv[0]) == FOAM_Bool);
 		assert(foamTag(argv[1]) == FOAM_Bool);
 		foam = foamNewBool(argv[0]->foamBool.BoolData &&
-				  argv[0]->foamBool.BoolData);
+				  argv[1]->foamBool.BoolData);
 		break;
 	  case FOAM_BVal_BoolOr:
 		if (!cfoldFoldAll) break;
 		assert(foamTag(argv[0]) == FOAM_Bool);
 		assert(foamTag(argv[1]) == FOAM_Bool);
 		foam = foamNewBool(argv[0]->foamBool.BoolData ||
-				  argv[0]->foamBool.BoolData);
+				  argv[1]->foamBool.BoolData);
 		break;
 	  case FOAM_BVal_BoolEQ:
 		if (!cfoldFoldAll) break;
 		assert(foamTag(argv[0]) == FOAM_Bool);
 		assert(foamTag(argv[1]) == FOAM_Bool);
 		foam = foamNewBool(argv[0]->foamBool.BoolData ==
-				  argv[0]->foamBool.BoolData);
+				  argv[1]->foamBool.BoolData);
 		break;
 	  case FOAM_BVal_BoolNE:
 		if (!cfoldFoldAll) break;
 		assert(foamTag(argv[0]) == FOAM_Bool);
 		assert(foamTag(argv[1]) == FOAM_Bool);
 		foam = foamNewBool(argv[0]->foamBool.BoolData !=
-				  argv[0]->foamBool.BoolData);
+				  argv[1]->foamBool.BoolData);
 		break;
 		
 	  case FOAM_BVal_CharSpace:
@@ -232,28 +232,28 @@ cfoldBCall(Foam bcall)
 		assert(foamTag(argv[0]) == FOAM_Char);
 		assert(foamTag(argv[1]) == FOAM_Char);
 		foam = foamNewBool(argv[0]->foamChar.CharData ==
-				  argv[0]->foamChar.CharData);
+				  argv[1]->foamChar.CharData);
 		break;
 	  case FOAM_BVal_CharNE:
 		if (!cfoldFoldAll) break;
 		assert(foamTag(argv[0]) == FOAM_Char);
 		assert(foamTag(argv[1]) == FOAM_Char);
 		foam = foamNewBool(argv[0]->foamChar.CharData !=
-				  argv[0]->foamChar.CharData);
+				  argv[1]->foamChar.CharData);
 		break;
 	  case FOAM_BVal_CharLT:
 		if (!cfoldFoldAll) break;
 		assert(foamTag(argv[0]) == FOAM_Char);
 		assert(foamTag(argv[1]) == FOAM_Char);
 		foam = foamNewBool(argv[0]->foamChar.CharData <
-				  argv[0]->foamChar.CharData);
+				  argv[1]->foamChar.CharData);
 		break;
 	  case FOAM_BVal_CharLE:
 		if (!cfoldFoldAll) break;
 		assert(foamTag(argv[0]) == FOAM_Char);
 		assert(foamTag(argv[1]) == FOAM_Char);
 		foam = foamNewBool(argv[0]->foamChar.CharData <=
-				  argv[0]->foamChar.CharData);
+				  argv[1]->foamChar.CharData);
 		break;
 	  case FOAM_BVal_CharLower:
 		if (!cfoldFoldAll) break;
